@@ -36,6 +36,9 @@ const c04Prelude = `def mkreb(b):
     hostfreeze(get)
     x = b
     return get
+def fz(x):
+    hostfreeze(x)
+    return x
 `
 
 func c04Source(g *c04Graph) string {
@@ -61,6 +64,8 @@ func c04Source(g *c04Graph) string {
 				e = fmt.Sprintf("(node(%d), 1)", c)
 			case "struct":
 				e = fmt.Sprintf("struct(f = node(%d))", c)
+			case "structsum":
+				e = fmt.Sprintf("fz(struct(a = 1)) + struct(f = node(%d))", c)
 			case "default":
 				e = fmt.Sprintf("lambda x = node(%d): x", c)
 			case "closure":
